@@ -12,7 +12,7 @@ Open Scope N_scope.
 
 Inductive rerr :=
 | EOF | UnexpectedEOF | NoProgress | BufferFull | SrcErr
-| BadCRLF | BadRespType | BadArrayLen | BadArrayLenTooLong
+| BadCRLF | BadRespType | BadArrayLen | BadArrayLenTooLong | BadArrayDepth
 | BadBulkLen | BadBulkLenTooLong | BadMultiBulkLen | BadMultiBulkContent
 | IntSyntax | IntRange
 | OutOfFuel | Impossible.
@@ -21,7 +21,7 @@ Definition rerr_eqb (a b : rerr) : bool :=
   match a, b with
   | EOF, EOF | UnexpectedEOF, UnexpectedEOF | NoProgress, NoProgress | BufferFull, BufferFull
   | SrcErr, SrcErr | BadCRLF, BadCRLF | BadRespType, BadRespType | BadArrayLen, BadArrayLen
-  | BadArrayLenTooLong, BadArrayLenTooLong | BadBulkLen, BadBulkLen
+  | BadArrayLenTooLong, BadArrayLenTooLong | BadArrayDepth, BadArrayDepth | BadBulkLen, BadBulkLen
   | BadBulkLenTooLong, BadBulkLenTooLong | BadMultiBulkLen, BadMultiBulkLen
   | BadMultiBulkContent, BadMultiBulkContent | IntSyntax, IntSyntax | IntRange, IntRange
   | OutOfFuel, OutOfFuel | Impossible, Impossible => true
